@@ -807,3 +807,25 @@ pub fn decode_op(specs: &[OpSpec], total_weight: u32, raw: (u16, u8, u8)) -> Op 
     Op { code: code as u8, a, b }
 }
 
+
+/// Generator efficiency: a create / poll op that has no applicable target is turned into something
+/// useful instead of being a no-op - drop a completed future to free its slot, or (poll only)
+/// create a future when nothing exists yet. Deterministic, so shrinking and replay are unaffected.
+pub fn recycle<F>(op: &Op, slots: &[Slot<F>], create_codes: &[u8], poll_code: u8, drop_code: u8) -> Op {
+    let is_create = create_codes.contains(&op.code);
+    let is_poll = op.code == poll_code;
+    if !(is_create || is_poll) {
+        return *op;
+    }
+    let applicable = if is_create { slots.iter().any(|s| !s.alive()) } else { slots.iter().any(|s| s.pollable()) };
+    if applicable {
+        return *op;
+    }
+    if let Some(i) = slots.iter().position(|s| s.alive() && (s.done || s.cancelled)) {
+        return Op { code: drop_code, a: i as u8, b: 0 };
+    }
+    if is_poll && slots.iter().any(|s| !s.alive()) {
+        return Op { code: create_codes[0], a: op.a, b: op.b };
+    }
+    *op
+}
